@@ -1,7 +1,9 @@
 (* C08 -- Type annotations are optional and never change the generated code.
    Only pinned statements, `exact`, Examples by vm_compute, and Print Assumptions. *)
 From Coq Require Import String List NArith ZArith PArith Bool.
-From Sylt Require Import Syntax.Resolved Types.TyGraph Types.Tc Back.IR Back.Emit Types.Erasure.
+From Coq Require Import FMapPositive.
+From Sylt Require Import Syntax.Resolved Types.TyGraph Types.Tc Types.TcInv Back.IR Back.Emit Types.Erasure
+  Types.SoundE0 Types.SoundE1 Types.Complete1 Types.CompleteE1 Types.EraseAccept.
 Import ListNotations.
 Local Open Scope string_scope.
 
@@ -38,10 +40,70 @@ Theorem C08_bytes_erase : forall sel fuel_tc fuel req r out1 out2,
   out1 = out2.
 Proof. exact Erasure.C08_bytes_erase. Qed.
 
-(* Acceptance: erasing ground annotations keeps a program accepted.  STATED ONLY (not proved); evaluated by
-   the oracle of the check on the real compiler.  For non-ground annotations it is false (known finding
-   C08-call-through-unknown-field). *)
+(* Acceptance: erasing ground annotations keeps a program accepted.  For whole programs this is STATED ONLY (not
+   proved) and evaluated by the oracle of the check on the real compiler; for non-ground annotations it is false (known
+   finding C08-call-through-unknown-field).  PROVED for the bodies of the E1 fragment: C08_accept_erase_E1 below. *)
 Definition C08_accept_ground_statement : Prop := Erasure.C08_accept_ground_statement.
+
+(* ---- "annotations are optional", proved for blocks of the E1 fragment (Types/SoundE1.v): local definitions `x := e`,
+   `x :: e`, `x: t = e`, `x: t : e` with t one of int float str bool, assignments `x = e`, expression statements, and
+   for e: literals, reads, + - * < > <= >= == != <=> and or, unary - and not, if-else expressions (no division).
+
+   If the checker accepts such a block -- as `fn expression_block` is called on the body of a function: any TypeCtx, any
+   fuel, any well-formed state in which the variables the block defines are still as TypeChecker::new made them
+   (`fresh`; each definition has its own variable, NoDup, as the resolver guarantees) -- then it also accepts the block
+   in which the annotations of ANY subset of the definitions (sel, by position) are erased, from the same state, with
+   the fuel given below; both values have the same base type.
+   The proof: accepted => typed (C02_E1's accepted_block1) => the erased block is typed (the annotation is only an extra
+   check) => accepted (completeness of the checker on typed blocks of the fragment: C08_typed_accepted_E1).  The checks
+   that do not look at types (kinds of variables, purity) are the same for both blocks and are read off the accepted run.
+
+   What stays oracle-only (C08_accept_ground_statement in general): the rest of the program after such a body (the two
+   runs leave states that differ in the `ty` field of absorbed nodes); annotations of parameters and return types
+   (inference from call sites); tuple, list, blob and function annotations; loops, calls, nested blocks, `ret`. *)
+Theorem C08_accept_erase_E1 : forall kinds g0 f0 ctx sp ss e sel s r ov s',
+  frag_stmts1 [] ss e = true -> NoDup (defs ss) -> wf s -> (forall x, In x (defs ss) -> fresh s x) ->
+  expression_block (gfix g0) (afix kinds (gfix g0) f0) sp (to_block1 sp ss e) ctx s = TyGraph.Ok ((r, ov), s') ->
+  forall g f, (max_depth ss e < S f)%nat ->
+    exists t c v s'',
+      ov = Some c /\ head s' c = Some (bty_head t) /\
+      expression_block (gfix (S (S (S (S g))))) (afix kinds (gfix (S (S (S (S g))))) (S (S f))) sp
+                       (to_block1 sp (erase1 sel 0 ss) e) ctx s = TyGraph.Ok ((None, Some v), s'') /\
+      wf s'' /\ head s'' v = Some (bty_head t).
+Proof. exact EraseAccept.accept_erase_E1. Qed.
+
+(* completeness of the checker on the fragment: a typed block (SoundE1.ty_block1: simple types with an environment)
+   that passes the checks on kinds and purity is accepted, from every state in which its variables are fresh *)
+Theorem C08_typed_accepted_E1 : forall kinds g f ctx sp ss e t s,
+  ty_block1 [] ss e = Some t -> side_block kinds ctx ss e = true -> NoDup (defs ss) ->
+  (max_depth ss e < S f)%nat -> wf s -> (forall x, In x (defs ss) -> fresh s x) ->
+  exists v s', expression_block (gfix (S (S (S (S g))))) (afix kinds (gfix (S (S (S (S g))))) (S (S f))) sp
+                 (to_block1 sp ss e) ctx s = TyGraph.Ok ((None, Some v), s') /\ wf s' /\ head s' v = Some (bty_head t).
+Proof. exact EraseAccept.typed_accepted_E1. Qed.
+
+(* the erasure of C08_bytes_erase (Erasure.erase_s: by the span of the annotation), on a block of the fragment, is
+   erase1; and when checking starts every variable is fresh *)
+Theorem C08_erase_block : forall sel sp ss e,
+  map (erase_s sel) (to_block1 sp ss e) = to_block1 sp (erase1 (fun _ => sel sp) 0 ss) e.
+Proof. exact EraseAccept.erase_s_block. Qed.
+
+Theorem C08_fresh_after_init : forall n x s',
+  init_vars n empty_st = TyGraph.Ok (tt, s') -> (N.to_nat x < n)%nat -> fresh s' x.
+Proof. exact EraseAccept.fresh_after_init. Qed.
+
+(* the definitions the statements rest on, pinned *)
+Example C08_erase1_def : forall sel i x k annot e q,
+  erase1 sel i (D1 x k annot e :: q) = D1 x k (if sel i then None else annot) e :: erase1 sel (S i) q.
+Proof. reflexivity. Qed.
+Example C08_erase1_other : forall sel i x e q,
+  erase1 sel i (A1 x e :: q) = A1 x e :: erase1 sel (S i) q /\ erase1 sel i (X1 e :: q) = X1 e :: erase1 sel (S i) q.
+Proof. split; reflexivity. Qed.
+Example C08_fresh_def : forall s x,
+  fresh s x = (exists n, lk s (N.succ_pos x) = Some n /\ nrep n = N.succ_pos x /\ nty n = HUnknown /\ ncons n = [] /\
+                         existsb (N.eqb x) (tnames s) = false).
+Proof. reflexivity. Qed.
+Example C08_defs_def : forall ss, defs ss = flat_map (fun st => match st with D1 x _ _ _ => [x] | _ => [] end) ss.
+Proof. reflexivity. Qed.
 
 (* ---- non-vacuity: start :: fn do x: int = 1 + 2 end, and the same with `x := 1 + 2` *)
 Definition sp0 : span := mkSpan 0 1 1 1 2.
@@ -66,7 +128,39 @@ Example C08_example_same_bytes :
               String.length (match out with IR.Ok s => s | _ => "" end) <> 0.
 Proof. eexists. split; [vm_compute; reflexivity|]. split; [vm_compute; reflexivity|]. vm_compute. discriminate. Qed.
 
+
+(* ---- non-vacuity of C08_accept_erase_E1:  x: int = 1 ; y: float : 2.5 ; x = x + 2 ; if x < 3 do y else y * y end *)
+Definition blkE : list s1 :=
+  [D1 1 Mutable (Some TI) (I1 1); D1 2 Const (Some TF) (F1 "2.5"); A1 1 (Bin1 Add (R1 1) (I1 2))].
+Definition resE : e1 := If1 (Bin1 Less (R1 1) (I1 3)) (R1 2) (Bin1 Mul (R1 2) (R1 2)).
+Definition kindsE : PositiveMap.t varkind :=
+  PositiveMap.add (N.succ_pos 1) Mutable (PositiveMap.add (N.succ_pos 2) Const (PositiveMap.empty varkind)).
+Definition run_block (ss : list s1) :=
+  (init_vars 3 ;;; expression_block (gfix 5) (afix kindsE (gfix 5) 5) sp0 (to_block1 sp0 ss resE) ctx_new)%tc empty_st.
+Example C08_example_E1_hypotheses : frag_stmts1 [] blkE resE = true /\ NoDup (defs blkE) /\ (max_depth blkE resE < 4)%nat.
+Proof. split; [reflexivity|]. split; [repeat constructor; cbn; intuition discriminate|cbn; repeat constructor]. Qed.
+Example C08_example_E1_accepted : match run_block blkE with TyGraph.Ok _ => true | _ => false end = true.
+Proof. vm_compute. reflexivity. Qed.
+Example C08_example_E1_erased_differ :
+  erase1 (fun i => Nat.eqb i 0) 0 blkE <> blkE /\ erase1 (fun i => Nat.eqb i 1) 0 blkE <> blkE /\ erase1 (fun _ => true) 0 blkE <> blkE.
+Proof. repeat split; vm_compute; discriminate. Qed.
+Example C08_example_E1_erased_accepted :
+  match run_block (erase1 (fun i => Nat.eqb i 0) 0 blkE), run_block (erase1 (fun i => Nat.eqb i 1) 0 blkE),
+        run_block (erase1 (fun _ => true) 0 blkE) with
+  | TyGraph.Ok _, TyGraph.Ok _, TyGraph.Ok _ => true | _, _, _ => false end = true.
+Proof. vm_compute. reflexivity. Qed.
+(* an annotation that is wrong is a type error; erased, the block is accepted: the annotation is only a check *)
+Example C08_example_E1_wrong_annotation :
+  match run_block [D1 1 Mutable (Some TS) (I1 1); D1 2 Const None (F1 "2.5")],
+        run_block (erase1 (fun _ => true) 0 [D1 1 Mutable (Some TS) (I1 1); D1 2 Const None (F1 "2.5")]) with
+  | TyGraph.Err e _, TyGraph.Ok _ => e_kind e | _, _ => KExotic end = KMismatch.
+Proof. vm_compute. reflexivity. Qed.
+
 Print Assumptions C08_checker_does_not_rewrite.
+Print Assumptions C08_accept_erase_E1.
+Print Assumptions C08_typed_accepted_E1.
+Print Assumptions C08_erase_block.
+Print Assumptions C08_fresh_after_init.
 Print Assumptions C08_lower_ignores_annotations.
 Print Assumptions C08_backend_ignores_annotations.
 Print Assumptions C08_bytes.
